@@ -1,4 +1,5 @@
 import Keto.Model.Expand
+import Keto.Model.ExpandFault
 import Keto.Spec.Reach
 import Keto.Generated.Facts
 import Driver.Tok
@@ -8,7 +9,9 @@ import Driver.Engine
   Component `expand`:
     <gdepth> <rdepth> <pageSize or 0 = Facts.defaultPageSize> T <n> tuples… S <subject>
   Correspondence columns: tree (canonical prefix rendering, children in the returned
-  order), calls (storage calls), leaves, checkleaves. Spec columns: cuts, reach, reachd.
+  order), calls (storage calls), leaves, checkleaves. Spec columns: cuts, reach, reachd, eff,
+  ferr (for k = 0 … min calls 12 - 1: '1' iff the expansion answers the error when exactly
+  the storage call number k fails, `Keto.faultColumn`; empty when there are no calls).
 -/
 namespace Driver
 open Keto
@@ -68,6 +71,7 @@ def handleExpand (toks : List String) : String :=
       | some t => idsOf t.descendants
     let reach := idsOf (reachAll c.tuples c.subject)
     let reachd := idsOf (reachWithin c.tuples (effDepth c.rdepth c.gdepth).toNat c.subject)
-    s!"tree={tree}\tcalls={rs.2.calls}\tleaves={natSetStr leaves}\tcheckleaves={natSetStr reach}\tcuts={rs.2.cuts}\treach={natSetStr reach}\treachd={natSetStr reachd}\teff={effDepth c.rdepth c.gdepth}"
+    let ferr := String.ofList ((faultColumn E c.rdepth c.subject (min rs.2.calls 12)).map fun b => if b then '1' else '0')
+    s!"tree={tree}\tcalls={rs.2.calls}\tleaves={natSetStr leaves}\tcheckleaves={natSetStr reach}\tcuts={rs.2.cuts}\treach={natSetStr reach}\treachd={natSetStr reachd}\teff={effDepth c.rdepth c.gdepth}\tferr={ferr}"
 
 end Driver
